@@ -500,7 +500,9 @@ func execute(c *fw.Ctx, ru *Run) {
 			allowed := tburst + ru.TotalRate*(s.t-firstT0).Seconds() + 1
 			if float64(cum) > allowed {
 				kind := "total-rate-exceeded"
-				if ru.Conns > 1 && (float64(cum)-allowed) < 0.005*allowed {
+				if excess := float64(cum) - allowed; ru.Conns > 1 && (excess < 0.005*allowed || excess <= 2) {
+					// (at low rates one byte is more than half a percent: the recorded finding is an over-grant of one or two
+					// bytes, whatever the total)
 					// several goroutines reserve from one x/time/rate limiter; see known_findings.txt
 					kind = "total-rate-exceeded marginally (<0.5% over the bound, concurrent readers on the shared limiter)"
 				}
